@@ -663,24 +663,47 @@ fn mode_stress(eng: &Engine, report: &mut Report) {
 // that in many fresh processes and compares every run with the same program run sequentially (threads one after
 // another): the streams handed out must be the same ones.
 
-fn mode_firstuse_child(threads: usize, draws: usize, sequential: bool) {
+/// thread names of the workers: 0 = unnamed, 1 = every worker is called "main", 2 = a mixture (two share a name)
+fn worker_builder(names: usize, k: usize) -> std::thread::Builder {
+    let b = std::thread::Builder::new();
+    match names {
+        1 => b.name("main".to_string()),
+        2 => match k % 4 {
+            0 => b.name("main".to_string()),
+            1 => b.name("worker".to_string()),
+            2 => b.name("worker".to_string()),
+            _ => b,
+        },
+        _ => b,
+    }
+}
+
+fn mode_firstuse_child(threads: usize, draws: usize, sequential: bool, names: usize) {
     let mut out: Vec<Vec<u32>> = Vec::new();
     if sequential {
-        for _ in 0..threads {
-            out.push(std::thread::spawn(move || draw_main(draws)).join().expect("child thread"));
+        for k in 0..threads {
+            out.push(worker_builder(names, k).spawn(move || draw_main(draws)).expect("spawn").join().expect("child thread"));
         }
     } else {
         let arrived = Arc::new(AtomicU64::new(0));
         let hs: Vec<_> = (0..threads)
-            .map(|_| {
+            .map(|k| {
                 let arrived = arrived.clone();
-                std::thread::spawn(move || {
-                    arrived.fetch_add(1, Ordering::SeqCst);
-                    while arrived.load(Ordering::SeqCst) < threads as u64 {
-                        std::hint::spin_loop();
-                    }
-                    draw_main(draws)
-                })
+                worker_builder(names, k)
+                    .spawn(move || {
+                        arrived.fetch_add(1, Ordering::SeqCst);
+                        let mut spins = 0u32;
+                        while arrived.load(Ordering::SeqCst) < threads as u64 {
+                            std::hint::spin_loop();
+                            spins += 1;
+                            if spins % 4096 == 0 {
+                                // (on a single CPU the others have to get their turn)
+                                std::thread::yield_now();
+                            }
+                        }
+                        draw_main(draws)
+                    })
+                    .expect("spawn")
             })
             .collect();
         for h in hs {
@@ -815,10 +838,17 @@ fn rounds_phase(report: &mut Report, model: SourceModel, thorough: bool) {
     }
 }
 
-fn run_firstuse_child(threads: usize, draws: usize, sequential: bool) -> Option<Vec<Vec<u32>>> {
+/// `one_cpu`: the child is confined to a single CPU (taskset), so its threads never run in parallel, only interleaved
+fn run_firstuse_child_env(threads: usize, draws: usize, sequential: bool, names: usize, one_cpu: bool) -> Option<Vec<Vec<u32>>> {
     let exe = child_exe()?;
-    let mut cmd = std::process::Command::new(exe);
-    cmd.arg("--mode").arg("firstuse-child").arg("--workers").arg(threads.to_string()).arg("--draws").arg(draws.to_string());
+    let mut cmd = if one_cpu {
+        let mut c = std::process::Command::new("taskset");
+        c.arg("-c").arg("0").arg(exe);
+        c
+    } else {
+        std::process::Command::new(exe)
+    };
+    cmd.arg("--mode").arg("firstuse-child").arg("--workers").arg(threads.to_string()).arg("--draws").arg(draws.to_string()).arg("--names").arg(names.to_string());
     if sequential {
         cmd.arg("--sequential").arg("yes");
     }
@@ -843,13 +873,23 @@ fn run_firstuse_child(threads: usize, draws: usize, sequential: bool) -> Option<
 fn firstuse_phase(report: &mut Report, model: SourceModel, thorough: bool) {
     // four starters (three child processes at a time) and sixteen starters (one process at a time: a contention fall-back
     // path needs many threads in the same instant)
-    firstuse_variant(report, model, 4, 3, if thorough { 1500 } else { 240 });
-    firstuse_variant(report, model, 16, 1, if thorough { 600 } else { 120 });
+    firstuse_variant(report, model, 4, 3, if thorough { 1500 } else { 240 }, 0, false);
+    firstuse_variant(report, model, 16, 1, if thorough { 600 } else { 120 }, 0, false);
+    // the environment of the threads: every worker named "main", a mixture of names, and the whole child confined to one
+    // CPU (the reference is the same program run sequentially and unconfined)
+    firstuse_variant(report, model, 4, 3, if thorough { 300 } else { 60 }, 1, false);
+    firstuse_variant(report, model, 5, 3, if thorough { 300 } else { 60 }, 2, false);
+    if std::process::Command::new("taskset").arg("-c").arg("0").arg("true").status().map(|s| s.success()).unwrap_or(false) {
+        firstuse_variant(report, model, 4, 2, if thorough { 200 } else { 40 }, 0, true);
+        report.inc("first_use_variants_confined_to_one_cpu");
+    } else {
+        report.extra("first_use_one_cpu_subcheck", "not run: taskset is not available");
+    }
 }
 
-fn firstuse_variant(report: &mut Report, model: SourceModel, threads: usize, parallel: usize, runs: usize) {
+fn firstuse_variant(report: &mut Report, model: SourceModel, threads: usize, parallel: usize, runs: usize, names: usize, one_cpu: bool) {
     let draws = 4usize;
-    let seq = match (run_firstuse_child(threads, draws, true), run_firstuse_child(threads, draws, true)) {
+    let seq = match (run_firstuse_child_env(threads, draws, true, names, false), run_firstuse_child_env(threads, draws, true, names, false)) {
         (Some(a), Some(b)) if a == b => a,
         (Some(_), Some(_)) => {
             report.extra("first_use_subcheck", "not applicable: the sequential child process is not reproducible");
@@ -875,7 +915,7 @@ fn firstuse_variant(report: &mut Report, model: SourceModel, threads: usize, par
         for _ in 0..parallel {
             sc.spawn(|| {
                 while next.fetch_add(1, Ordering::Relaxed) < runs as u64 {
-                    let r = run_firstuse_child(threads, draws, false);
+                    let r = run_firstuse_child_env(threads, draws, false, names, one_cpu);
                     results.lock().unwrap().push(r);
                 }
             });
@@ -912,6 +952,8 @@ fn firstuse_variant(report: &mut Report, model: SourceModel, threads: usize, par
                 Json::obj()
                     .set("what", "threads released together into their first node creation in a fresh process did not receive the priority streams the same program receives when its threads run one after another (a stream was handed out twice, or lost)")
                     .set("threads", threads)
+                    .set("worker_names", ["unnamed", "every worker named main", "mixed names"][names.min(2)])
+                    .set("child_confined_to_one_cpu", one_cpu)
                     .set("streams_seen", Json::Arr(got.iter().map(|s| Json::from(s.iter().map(|&x| x as u64).collect::<Vec<u64>>())).collect()))
                     .set("streams_of_the_sequential_run", Json::Arr(seq.iter().map(|s| Json::from(s.iter().map(|&x| x as u64).collect::<Vec<u64>>())).collect())),
                 vec!["--mode".into(), "stress".into()],
@@ -1250,7 +1292,7 @@ fn main() {
             mode_rounds_child(get("--rounds", "10").parse().unwrap(), get("--workers", "16").parse().unwrap(), get("--draws", "3").parse().unwrap(), get("--sequential", "no") == "yes");
         }
         "firstuse-child" => {
-            mode_firstuse_child(get("--workers", "4").parse().unwrap(), get("--draws", "4").parse().unwrap(), get("--sequential", "no") == "yes");
+            mode_firstuse_child(get("--workers", "4").parse().unwrap(), get("--draws", "4").parse().unwrap(), get("--sequential", "no") == "yes", get("--names", "0").parse().unwrap());
         }
         "stress" => {
             let eng = Engine::start("racemon");
